@@ -24,3 +24,26 @@ fn num_is_zero_bigint_i64() {
     let n: i64 = kani::any();
     assert!(Number::BigInt(Rc::new(BigInt::from(n))).is_zero() == (n == 0));
 }
+
+fn rev(o: Option<std::cmp::Ordering>) -> Option<std::cmp::Ordering> {
+    match o { Some(x) => Some(x.reverse()), None => None }
+}
+
+/// mixed exact / inexact comparison, fixnum against float (every i64, every non-NaN f64): the two argument orders agree
+/// (x < y iff y > x), `=` is symmetric, and `=` holds exactly when the order says Equal
+#[kani::proof]
+fn num_cmp_fixnum_float_consistent() {
+    let a: i64 = kani::any();
+    let f: f64 = kani::any();
+    kani::assume(!f.is_nan());
+    let x = Number::Fixnum(a);
+    let y = Number::Float(f);
+    let c1 = x.partial_cmp(&y);
+    let c2 = y.partial_cmp(&x);
+    assert!(c1.is_some());
+    assert!(c1 == rev(c2));
+    assert!((x == y) == (y == x));
+    assert!((x == y) == (c1 == Some(std::cmp::Ordering::Equal)));
+}
+
+// (the same harness for float against rational does not finish: Ratio::to_f64 goes through 128-bit division loops; 900 s timeout)
